@@ -150,7 +150,7 @@ class Shapes(object):
                 'alias-imports-itself loop that must still terminate')
 
     def blocks(self, tier):
-        return [{'k': k} for k in ('twomods', 'misnamed')]
+        return [{'k': k} for k in ('twomods', 'misnamed', 'bundle')]
 
     def cases(self, block, tier):
         for g in C07.graphs3_subset():
